@@ -133,6 +133,28 @@ func c11Run(p c11Plan) *common.Fail {
 		if got := fromLibLData(l); !sameRLData(got, &want) {
 			return common.Failf("layout-decode-aliases-input", "fields decoded from %x change when that buffer is overwritten:\n now      %+v\n expected %+v", orig, *got, want)
 		}
+		// ... and to the value: decoding the next frame into the same L_Data structure (a receive loop that reuses its
+		// variable) leaves what was handed out before - a by-value copy, the transport unit taken out of it - as it was
+		{
+			fresh, _ := common.RefEncodeCemi(c)
+			var m4 cemi.Message
+			if _, err := cemi.Unpack(fresh, &m4); err == nil {
+				if l4 := ldataOf(m4); l4 != nil {
+					kept := *l4
+					ld2 := *c.LData
+					ld2.TPDU = common.RTPDU{Numbered: !c.LData.TPDU.Numbered, Seq: 9, APCI: 2, Data: []byte{0x2a, 0x55, 0x66, 0x77}}
+					ld2.Src, ld2.Dst = 0x7777, 0x6666
+					c2 := *c
+					c2.LData = &ld2
+					next, _ := common.RefEncodeCemi(&c2)
+					if _, err := l4.Unpack(next[1:]); err == nil {
+						if got := fromLibLData(&kept); !sameRLData(got, &want) {
+							return common.Failf("layout-decode-shared", "the L_Data value decoded from %x (copied by value) changed when %x was decoded into the same structure:\n now      %+v\n expected %+v", fresh, next, *got, want)
+						}
+					}
+				}
+			}
+		}
 		// ... and to the caller: an application edits what it received (turns a control unit into its reply, say);
 		// what the decoder yields for the same layout afterwards is still what the bytes say
 		common.Scribble(m)
